@@ -185,24 +185,31 @@ class StructCore(object):
                     data.append(getattr(self._v, f.name))
                 elif hasattr(f,'subnames'):
                     D = {}
-                    for x in self.subnames:
+                    for x in f.subnames:
                         D[x] = getattr(self._v,x)
                     data.append(D)
         parts = []
         offset = 0
         for f, v in zip(self.fields, data):
             p = f.pack(v,psize)
-            if not self.packed:
-                pad = f.align(offset,psize) - offset
-                p = b"\0" * pad + p
+            if self.union is False:
+                if not self.packed:
+                    pad = f.align(offset,psize) - offset
+                    p = b"\0" * pad + p
+                offset += len(p)
             parts.append(p)
         if self.union is False:
             res = b"".join(parts)
-            if not self.packed:
-                res = res.ljust(self.size(psize), b"\0")
-            return res
         else:
-            return parts[self.union]
+            # the largest member (for the given psize):
+            res = max(parts,key=len)
+        if not self.packed:
+            # trailing padding up to the structure's alignment:
+            A = self.align_value(psize) or 1
+            r = len(res) % A
+            if r > 0:
+                res += b"\0" * (A - r)
+        return res
 
     def offset_of(self, name, psize=0):
         if self.union is not False:
